@@ -13,7 +13,6 @@ def check_code(code: str, settings=None, apply_changes=False, **kwargs):
     import ast
     from pyanalyze.error_code import ErrorCode, DISABLED_IN_TESTS
     from pyanalyze.name_check_visitor import NameCheckVisitor
-    from pyanalyze.test_config import TEST_OPTIONS
     from pyanalyze.checker import Checker
     from pyanalyze.options import Options
     _counter[0] += 1
